@@ -10,7 +10,7 @@ use crate::{INFINITY, NAN, NEG_INFINITY};
 /// which should always be encoded as strings.
 ///
 /// Should be used for the value representations
-/// AE, AS, AT, CS, DA, DT, LO, LT, SH, ST, TM, UC, UI, UR, and UT.
+/// AE, AS, CS, DA, DT, LO, LT, SH, ST, TM, UC, UI, UR, and UT.
 /// Can also be used for the value representations
 /// DS, IS, SV, and UV.
 ///
@@ -31,6 +31,37 @@ impl Serialize for AsStrings<'_> {
     {
         let strings = self.0.to_multi_str();
         serializer.collect_seq(&*strings)
+    }
+}
+
+/// Wrapper type for [primitive values][1]
+/// which should be encoded as attribute tags,
+/// each one a string of eight uppercase hexadecimal digits (`"GGGGEEEE"`).
+///
+/// Should only be used for the value representation AT.
+/// Values which are not held as tags are encoded as strings.
+///
+/// [1]: dicom_core::PrimitiveValue
+#[derive(Debug, Clone)]
+pub struct AsTags<'a>(&'a PrimitiveValue);
+
+impl<'a> From<&'a PrimitiveValue> for AsTags<'a> {
+    fn from(value: &'a PrimitiveValue) -> Self {
+        AsTags(value)
+    }
+}
+
+impl Serialize for AsTags<'_> {
+    fn serialize<S>(&self, serializer: S) -> Result<S::Ok, S::Error>
+    where
+        S: serde::Serializer,
+    {
+        match self.0 {
+            PrimitiveValue::Tags(tags) => {
+                serializer.collect_seq(tags.iter().map(|tag| crate::DicomJson::from(*tag)))
+            }
+            other => AsStrings(other).serialize(serializer),
+        }
     }
 }
 
@@ -274,5 +305,14 @@ mod tests {
         let v = dicom_value!(U64, [876543245678]);
         let json = serde_json::to_value(AsNumbers(&v)).unwrap();
         assert_eq!(json, json!(["876543245678"]),);
+    }
+
+    #[test]
+    fn serialize_primitive_value_as_tags() {
+        use dicom_core::Tag;
+
+        let v = dicom_value!(Tags, [Tag(0x0008, 0x0018), Tag(0x7FE0, 0x0010)]);
+        let json = serde_json::to_value(AsTags(&v)).unwrap();
+        assert_eq!(json, json!(["00080018", "7FE00010"]));
     }
 }
